@@ -3,7 +3,7 @@
 and record which checks catch which change in /verif/seeded/RESULTS.json.
 usage: evalall.py [seed-name ...]"""
 import json, os, subprocess, sys, glob, shutil
-WT='/tmp/evalwt'; EV='/tmp/evalverif'
+WT='/tmp/evalwt'; EV='/tmp/evalverif'; PC=os.environ.get('PCHECK','/verif/bin/pcheck')
 def sh(cmd, **kw): return subprocess.run(cmd, shell=True, capture_output=True, text=True, **kw)
 if not os.path.isdir(WT):
     sh(f'git -C /repo worktree add -f {WT} HEAD')
@@ -28,7 +28,7 @@ for n in names:
     caught={}
     for p in props:
         if p not in claimed: continue
-        r=sh(f'/verif/bin/pcheck -prop {p} -tier quick -repo {WT} -verif {EV}', timeout=1200)
+        r=sh(f'{PC} -prop {p} -tier quick -repo {WT} -verif {EV}', timeout=1200)
         if r.returncode!=0:
             lines=[l.strip()[:220] for l in r.stdout.splitlines() if ('VIOLATED' in l or 'UNDECIDED' in l or 'CHECK-BROKEN' in l)]
             caught[p]={'exit':r.returncode,'reports':lines[:3]}
